@@ -125,10 +125,15 @@ Fixpoint pad_nulls (items : list (rkey * node)) (n : nat) : list (rkey * node) :
   | S m => pad_nulls (add_child items None null_node) m
   end.
 
-(* traverseArrayWithIndices for one index; pads with nulls in every mode *)
-Definition trav_index (p : ptr) (items : list (rkey * node)) (idx : Z) (st : store) : res out :=
+(* traverseArrayWithIndices for one index.  Writable: pads the sequence with
+   nulls up to the index.  Read-only: answers a detached null that claims the
+   position, without touching the sequence. *)
+Definition trav_index (ro : bool) (p : ptr) (items : list (rkey * node)) (idx : Z) (st : store) : res out :=
   let len := Z.of_nat (length items) in
   if (len <=? idx)%Z then
+    if ro then
+      one (alloc st (mkRoot (Some (path_of st p)) (Some (RIdx (Z.to_N idx))) null_node))
+    else
     if (idx >? 100000)%Z then Unsup else
     let items' := pad_nulls items (Z.to_nat (idx + 1 - len)) in
     Ok ([(fst p, snd p ++ [Z.to_nat idx])], update st p (fun _ => Seq items'))
@@ -150,14 +155,14 @@ Definition trav_key (ro : bool) (k : str) (p : ptr) (st : store) : res out :=
   | Map es => trav_map ro k p es st
   | Seq items =>
       let* z := Z_of_index k in
-      trav_index p items z st
+      trav_index ro p items z st
   end.
 
 (* traverseArrayIndices: `[indices]` applied to one node *)
 Definition trav_indices (ro : bool) (idx : list node) (p : ptr) (st : store) : res out :=
   let* n0 := deref_r st p in
   (* a null becomes an empty sequence (a map if the first index is not an
-     integer) in every mode: there is no DontAutoCreate test here *)
+     integer): in place when writable, on a stand-in when read-only *)
   let '(n, st) :=
     match n0 with
     | Scalar TNull _ =>
@@ -166,7 +171,7 @@ Definition trav_indices (ro : bool) (idx : list node) (p : ptr) (st : store) : r
                   | [] => Seq []
                   | _ => Map []
                   end in
-        (n', update st p (fun _ => n'))
+        (n', if ro then st else update st p (fun _ => n'))
     | _ => (n0, st)
     end in
   match n with
@@ -175,9 +180,9 @@ Definition trav_indices (ro : bool) (idx : list node) (p : ptr) (st : store) : r
       | [] => Ok (child_ptrs p n, st)
       | _ =>
           each (fun ix st1 =>
-                  let* n1 := deref_r st1 p in
+                  let* n1 := if ro then Ok n else deref_r st1 p in
                   match n1, ix with
-                  | Seq items1, Scalar _ v => let* z := Z_of_index v in trav_index p items1 z st1
+                  | Seq items1, Scalar _ v => let* z := Z_of_index v in trav_index ro p items1 z st1
                   | _, _ => Unsup
                   end) idx st
       end
@@ -186,7 +191,7 @@ Definition trav_indices (ro : bool) (idx : list node) (p : ptr) (st : store) : r
       | [] => Ok (child_ptrs p n, st)
       | _ =>
           each (fun ix st1 =>
-                  let* n1 := deref_r st1 p in
+                  let* n1 := if ro then Ok n else deref_r st1 p in
                   match n1, ix with
                   | Map es1, Scalar _ v => trav_map ro v p es1 st1
                   | _, _ => Unsup
@@ -477,15 +482,15 @@ Definition truthy_ptr (st : store) (p : option ptr) : res bool :=
 (* ---------- sort comparator, int/string/null/bool fragment (operator_sort.go) ---------- *)
 Definition sort_rank (n : node) : option (N * Z * str) :=
   match n with
-  | Scalar TNull _ => Some (0, 0%Z, [])
-  | Scalar TBool v => Some (1, (if truthy n then 1 else 0)%Z, [])
+  | Scalar TNull _ => Some (1, 0%Z, [])
+  | Scalar TBool v => Some (2, (if truthy n then 1 else 0)%Z, [])
   | Scalar TInt v =>
       if special_int_spelling v then None else
       match parse_dec v with
-      | Some z => if ((-4611686018427387904 <=? z) && (z <=? 4611686018427387903))%Z then Some (2, z, []) else None
+      | Some z => if ((-4611686018427387904 <=? z) && (z <=? 4611686018427387903))%Z then Some (3, z, []) else None
       | None => None
       end
-  | Scalar TStr v => Some (3, 0%Z, v)
+  | Scalar TStr v => Some (4, 0%Z, v)
   | _ => None
   end.
 
@@ -510,9 +515,7 @@ Definition path_node (ps : list pelem) : node := Seq (renumber_from 0 (List.map 
 
 (* ---------- UpdateFrom (candidate_node.go), JSON-model fragment ---------- *)
 Definition update_from (st : store) (l r : ptr) : res store :=
-  if (Nat.eqb (fst l) (fst r) && (fix eqp (a b : list nat) : bool :=
-        match a, b with [], [] => true | x :: a', y :: b' => Nat.eqb x y && eqp a' b' | _, _ => false end) (snd l) (snd r))
-  then Ok st else
+  if ptr_eqb l r then Ok st else
   let* rn := deref_r st r in
   Ok (update st l (fun _ => rn)).
 
@@ -605,10 +608,59 @@ Fixpoint split_on (fuel : nat) (sep s cur : str) : list str :=
       end
   end.
 
+(* deleteChildOperator's loop *)
+Fixpoint del_loop (fuel : nat) (victims : list ptr) (cx : list ptr) (st0 : store) : res out :=
+  match fuel with
+  | O => Ok (cx, st0)
+  | S f =>
+      match victims with
+      | [] => Ok (cx, st0)
+      | v :: rest =>
+          match parent_ptr v with
+          | None =>
+              match nth_error st0 (fst v) with
+              | Some rt =>
+                  match r_parent rt with
+                  | None => Ok (filter (fun c => negb (ptr_eqb c v)) cx, st0)   (* removeFromContext returns at once *)
+                  | Some _ => Unsup
+                  end
+              | None => Unsup
+              end
+          | Some par =>
+              let* pn := deref_r st0 par in
+              match key_of st0 v with
+              | Some k =>
+                  let* pn' := delete_child pn k in
+                  let removed := removed_positions pn k in
+                  del_loop f (shift_ptrs par removed rest) (shift_ptrs par removed cx) (update st0 par (fun _ => pn'))
+              | None => Panic
+              end
+          end
+      end
+  end.
+
+(* AddChild each pointed-to node (in its current state) into a new item list *)
+Fixpoint collect_items (st : store) (ps : list ptr) (acc : list (rkey * node)) : res (list (rkey * node)) :=
+  match ps with
+  | [] => Ok acc
+  | p :: r => let* n := deref_r st p in collect_items st r (add_child acc (key_of st p) n)
+  end.
+
+(* DontAutoCreate flag of the Context a handler *returns* (handlers that run
+   their operands on context.ReadOnlyClone() hand that clone's flag back);
+   it matters where the returned Context itself is traversed: l[idx], l[a:b] *)
+Fixpoint ret_ro (e : expr) (ro : bool) : bool :=
+  match e with
+  | EBin (OAdd | OSub | OMod | ONe | OAnd | OOr | OContains) _ _ => true
+  | EUnion l _ => ret_ro l ro
+  | EReduce _ _ init body => ret_ro body (ret_ro init ro)   (* the accumulator context (at least one iteration) *)
+  | _ => ro
+  end.
+
 (* handlers that return the context's own MatchingNodes list object *)
 Fixpoint returns_ctx (e : expr) : bool :=
   match e with
-  | ESelf | EFlatten _ | EAssign _ _ | EUpdate _ _ | ECompound _ _ _ => true
+  | ESelf | EAssign _ _ | EUpdate _ _ | ECompound _ _ _ => true
   | EPipe l r => returns_ctx l && returns_ctx r
   | _ => false
   end.
@@ -637,9 +689,10 @@ Fixpoint eval (fuel : nat) (e : expr) (ro : bool) (vs : vars) (ctx : list ptr) (
                     | p :: _ => let* n := deref_r (snd oi) p in
                                 match n with Seq items => Ok (List.map snd items) | _ => Unsup end
                     end in
-        each (trav_indices ro ixs) (fst ol) (snd oi)
+        each (trav_indices (ret_ro l ro) ixs) (fst ol) (snd oi)
     | ESlice l a b =>
         let* ol0 := ev l ro vs ctx st in
+        let ro := ret_ro l ro in
         each (fun c st0 =>
                 let* oa := ev a ro vs [c] st0 in
                 let* ta := match fst oa with [p] => first_text (snd oa) [p] [] | _ => Err end in
@@ -680,12 +733,7 @@ Fixpoint eval (fuel : nat) (e : expr) (ro : bool) (vs : vars) (ctx : list ptr) (
             each (fun c st0 =>
                     let* o := match eo with Some e1 => ev e1 ro vs [c] st0 | None => Ok ([], st0) end in
                     let st1 := snd o in
-                    let* items :=
-                      (fix build (ps : list ptr) (acc : list (rkey * node)) : res (list (rkey * node)) :=
-                         match ps with
-                         | [] => Ok acc
-                         | p :: r => let* n := deref_r st1 p in build r (add_child acc (key_of st1 p) n)
-                         end) (fst o) [] in
+                    let* items := collect_items st1 (fst o) [] in
                     one (alloc_repl st1 c (Seq items))) ctx st
         end
     | EBin o l r =>
@@ -753,24 +801,14 @@ Fixpoint eval (fuel : nat) (e : expr) (ro : bool) (vs : vars) (ctx : list ptr) (
                 let* os := trav_indices ro [] c st0 in
                 let* o := ev e1 ro vs (fst os) (snd os) in
                 let st1 := snd o in
-                let* items :=
-                  (fix build (ps : list ptr) (acc : list (rkey * node)) : res (list (rkey * node)) :=
-                     match ps with
-                     | [] => Ok acc
-                     | p :: r => let* n := deref_r st1 p in build r (add_child acc (key_of st1 p) n)
-                     end) (fst o) [] in
+                let* items := collect_items st1 (fst o) [] in
                 one (alloc_fresh st1 (Seq items))) ctx st
     | EFilter e1 =>
         each (fun c st0 =>
                 let* os := trav_indices ro [] c st0 in
                 let* o := ev (ESelect e1) ro vs (fst os) (snd os) in
                 let st1 := snd o in
-                let* items :=
-                  (fix build (ps : list ptr) (acc : list (rkey * node)) : res (list (rkey * node)) :=
-                     match ps with
-                     | [] => Ok acc
-                     | p :: r => let* n := deref_r st1 p in build r (add_child acc (key_of st1 p) n)
-                     end) (fst o) [] in
+                let* items := collect_items st1 (fst o) [] in
                 one (alloc_fresh st1 (Seq items))) ctx st
     | ELength =>
         each (fun c st0 =>
@@ -865,35 +903,36 @@ Fixpoint eval (fuel : nat) (e : expr) (ro : bool) (vs : vars) (ctx : list ptr) (
         each (fun c st0 =>
                 let* n := deref_r st0 c in
                 match n with
-                | Seq items =>
+                | Seq _ =>
                     let* r :=
-                      (fix go (ps : list ptr) (its : list (rkey * node)) (seen : list str) (acc : list (rkey * node)) (st1 : store)
-                         : res (list (rkey * node) * store) :=
-                         match ps, its with
-                         | p :: pr, it :: ir =>
+                      (fix go (ps : list ptr) (seen : list str) (acc : list ptr) (st1 : store)
+                         : res (list ptr * store) :=
+                         match ps with
+                         | p :: pr =>
                              let* o := ev e1 true vs [p] st1 in
                              let* kv := match fst o with
                                         | [] => Ok [110; 117; 108; 108]
                                         | q :: _ => let* kn := deref_r (snd o) q in
                                                     match kn with Scalar _ v => Ok v | _ => Unsup end
                                         end in
-                             if existsb (str_eqb kv) seen then go pr ir seen acc (snd o)
-                             else go pr ir (kv :: seen) (acc ++ [it]) (snd o)
-                         | _, _ => Ok (acc, st1)
-                         end) (child_ptrs c n) items [] [] st0 in
-                    one (alloc_repl (snd r) c (Seq (fst r)))
+                             if existsb (str_eqb kv) seen then go pr seen acc (snd o)
+                             else go pr (kv :: seen) (acc ++ [p]) (snd o)
+                         | [] => Ok (acc, st1)
+                         end) (child_ptrs c n) [] [] st0 in
+                    let* items := collect_items (snd r) (fst r) [] in
+                    one (alloc_repl (snd r) c (Seq items))
                 | _ => Err
                 end) ctx st
     | EGroupBy e1 =>
         each (fun c st0 =>
                 let* n := deref_r st0 c in
                 match n with
-                | Seq items =>
+                | Seq _ =>
                     let* r :=
-                      (fix go (ps : list ptr) (its : list (rkey * node)) (groups : list (str * list (rkey * node))) (st1 : store)
-                         : res (list (str * list (rkey * node)) * store) :=
-                         match ps, its with
-                         | p :: pr, it :: ir =>
+                      (fix go (ps : list ptr) (groups : list (str * list ptr)) (st1 : store)
+                         : res (list (str * list ptr) * store) :=
+                         match ps with
+                         | p :: pr =>
                              let* o := ev e1 true vs [p] st1 in
                              let* kv := match fst o with
                                         | [] => Ok [110; 117; 108; 108]
@@ -901,28 +940,32 @@ Fixpoint eval (fuel : nat) (e : expr) (ro : bool) (vs : vars) (ctx : list ptr) (
                                                     match kn with Scalar _ v => Ok v | _ => Ok [] end
                                         end in
                              let groups' :=
-                               (fix ins (gs : list (str * list (rkey * node))) : list (str * list (rkey * node)) :=
+                               (fix ins (gs : list (str * list ptr)) : list (str * list ptr) :=
                                   match gs with
-                                  | [] => [(kv, [it])]
-                                  | (k, l) :: gr => if str_eqb k kv then (k, l ++ [it]) :: gr else (k, l) :: ins gr
+                                  | [] => [(kv, [p])]
+                                  | (k, l) :: gr => if str_eqb k kv then (k, l ++ [p]) :: gr else (k, l) :: ins gr
                                   end) groups in
-                             go pr ir groups' (snd o)
-                         | _, _ => Ok (groups, st1)
-                         end) (child_ptrs c n) items [] st0 in
-                    one (alloc_repl (snd r) c (Seq (renumber_from 0 (List.map (fun g => Seq (snd g)) (fst r)))))
+                             go pr groups' (snd o)
+                         | [] => Ok (groups, st1)
+                         end) (child_ptrs c n) [] st0 in
+                    let st2 := snd r in
+                    let* gs :=
+                      (fix build (l : list (str * list ptr)) (acc : list node) : res (list node) :=
+                         match l with
+                         | [] => Ok acc
+                         | (_, ps) :: gr => let* items := collect_items st2 ps [] in build gr (acc ++ [Seq items])
+                         end) (fst r) [] in
+                    one (alloc_repl st2 c (Seq (renumber_from 0 gs)))
                 | _ => Err
                 end) ctx st
     | EFlatten depth =>
-        (fix go (cs : list ptr) (st0 : store) : res out :=
-           match cs with
-           | [] => Ok (ctx, st0)
-           | c :: r =>
-               let* n := deref_r st0 c in
-               match n with
-               | Seq items => go r (update st0 c (fun _ => Seq (flatten_items (node_size n) depth items)))
-               | _ => Err
-               end
-           end) ctx st
+        (* works on a Copy() of each context node *)
+        each (fun c st0 =>
+                let* n := deref_r st0 c in
+                match n with
+                | Seq items => one (alloc_repl st0 c (Seq (flatten_items (node_size n) depth items)))
+                | _ => Err
+                end) ctx st
     | EAny | EAll =>
         let want := match e with EAny => true | _ => false end in
         each (fun c st0 =>
@@ -979,33 +1022,32 @@ Fixpoint eval (fuel : nat) (e : expr) (ro : bool) (vs : vars) (ctx : list ptr) (
            match items with
            | [] => Ok (acc, st0)
            | it :: r =>
-               let* o := ev body ro ((x, [it]) :: vs) acc st0 in
+               let* o := ev body (ret_ro init ro) ((x, [it]) :: vs) acc st0 in
                go r (fst o) (snd o)
            end) (fst oa) (fst oi) (snd oi)
     | ESortBy e1 =>
         each (fun c st0 =>
                 let* n := deref_r st0 c in
                 match n with
-                | Seq items =>
+                | Seq _ =>
                     let* r :=
-                      (fix go (ps : list ptr) (its : list (rkey * node)) (acc : list ((N * Z * str) * (rkey * node))) (st1 : store)
-                         : res (list ((N * Z * str) * (rkey * node)) * store) :=
-                         match ps, its with
-                         | p :: pr, it :: ir =>
+                      (fix go (ps : list ptr) (acc : list ((N * Z * str) * ptr)) (st1 : store)
+                         : res (list ((N * Z * str) * ptr) * store) :=
+                         match ps with
+                         | p :: pr =>
                              let* o := ev e1 true vs [p] st1 in
-                             let* kn := match fst o with
-                                        | [q] => deref_r (snd o) q
-                                        | [] => Ok null_node
+                             (* Less compares the result lists: no result sorts before any result *)
+                             let* rk := match fst o with
+                                        | [q] => let* kn := deref_r (snd o) q in of_option (sort_rank kn)
+                                        | [] => Ok (0, 0%Z, [])
                                         | _ => Unsup      (* multi-key comparison *)
                                         end in
-                             match sort_rank kn with
-                             | Some rk => go pr ir (acc ++ [(rk, it)]) (snd o)
-                             | None => Unsup
-                             end
-                         | _, _ => Ok (acc, st1)
-                         end) (child_ptrs c n) items [] st0 in
+                             go pr (acc ++ [(rk, p)]) (snd o)
+                         | [] => Ok (acc, st1)
+                         end) (child_ptrs c n) [] st0 in
                     let sorted := stable_sort (fun a b => rank_leb (fst a) (fst b)) (fst r) in
-                    one (alloc_repl (snd r) c (Seq (List.map snd sorted)))
+                    let* items := collect_items (snd r) (List.map snd sorted) [] in
+                    one (alloc_repl (snd r) c (Seq items))
                 | Map _ => Unsup
                 | Scalar _ _ => Err
                 end) ctx st
@@ -1064,32 +1106,10 @@ Fixpoint eval (fuel : nat) (e : expr) (ro : bool) (vs : vars) (ctx : list ptr) (
            end) (fst o0) (snd o0)
     | EDel e1 =>
         let* o := ev e1 true vs ctx st in
-        (fix go (victims : list ptr) (cx : list ptr) (st0 : store) : res out :=
-           match victims with
-           | [] => Ok (cx, st0)
-           | v :: rest =>
-               match parent_ptr v with
-               | None =>
-                   match nth_error st0 (fst v) with
-                   | Some rt =>
-                       match r_parent rt with
-                       | None =>
-                           (* removeFromContext returns at once *)
-                           Ok (filter (fun c => negb (Nat.eqb (fst c) (fst v) && match snd c with [] => true | _ => false end)) cx, st0)
-                       | Some _ => Unsup
-                       end
-                   | None => Unsup
-                   end
-               | Some par =>
-                   let* pn := deref_r st0 par in
-                   match key_of st0 v with
-                   | Some k =>
-                       let* pn' := delete_child pn k in
-                       go rest cx (update st0 par (fun _ => pn'))
-                   | None => Panic
-                   end
-               end
-           end) (rev (fst o)) ctx (snd o)
+        (* victims back to front, each deleted once; a victim is located in its
+           parent by its *recorded* key, not by identity *)
+        let victims := dedupe_ptrs (rev (fst o)) [] in
+        del_loop (length victims) victims ctx (snd o)
     end
   end.
 
